@@ -106,8 +106,12 @@ der_encode_primitive(const asn_TYPE_descriptor_t *td, const void *sptr,
 			erval.structure_ptr = sptr;
 			return erval;
 		}
-	} else {
-		assert(st->buf || st->size == 0);
+	} else if(!st->buf && st->size) {
+		/* Malformed structure: contents are announced but absent. */
+		erval.encoded = -1;
+		erval.failed_type = td;
+		erval.structure_ptr = sptr;
+		return erval;
 	}
 
 	erval.encoded += st->size;
